@@ -843,11 +843,12 @@ func (tg *c08Target) layout(T types.Type) (o c08Layout) {
 	gIsCur := o.GSize == mcS && o.GAlign == mcA && c08Eq(o.GOffs, mcO)
 	gIsFixed := o.GSize == mgS && o.GAlign == mgA && c08Eq(o.GOffs, mgO)
 	aliasEffect = aliasEffect && gIsCur && !gIsFixed
-	restOK := (gIsCur || gIsFixed) &&
-		o.RSize == mgS && o.RAlign == mgA && c08Eq(o.ROffs, mgO) &&
-		o.DSize == o.RSize && o.DAlign == natA && o.DFAlign == natA
+	rIsFull := o.RSize == mgS && o.RAlign == mgA && c08Eq(o.ROffs, mgO)
+	rIsCur := o.RSize == mcS && o.RAlign == mcA && c08Eq(o.ROffs, mcO) // raw type still holds aliases: only when the unconverted named type won (recursive class)
+	dOK := o.DSize == o.RSize && o.DAlign == natA && o.DFAlign == natA
+	restOK := (gIsCur || gIsFixed) && rIsFull && dOK
 	o.modelOK = restOK && (o.DPtr == o.PG || o.DPtr == o.PCur) && o.LSize == mlS && o.LAlign == mlA && c08Eq(o.LOffs, mlO)
-	if restOK && !o.modelOK && c08RecursiveFuncMap(T) {
+	if (gIsCur || gIsFixed) && (rIsFull || rIsCur) && dOK && !o.modelOK && c08RecursiveFuncMap(T) {
 		// LLVM lowered the UNCONVERTED named type (func fields one word) under the same name
 		if rS, rA, rO := tg.model(T, tg.lla64, 1); o.LSize == rS && o.LAlign == rA && c08Eq(o.LOffs, rO) {
 			o.modelOK = true
@@ -976,7 +977,7 @@ func (tg *c08Target) check(T types.Type, emitDesc bool) (res c08Result) {
 			return
 		}
 		cls := ""
-		if co.modelOK && desc == co.DSize {
+		if co.modelOK && (desc == co.DSize || co.kclass == c08KRecur) {
 			cls = co.kclass
 		}
 		add("elemdesc:size", cls, "%s: descriptor Size_=%d, llvm size=%d", what, desc, co.LSize)
@@ -1177,6 +1178,13 @@ func c08Probes(g *c08Gen) (ts []types.Type, names []string) {
 	rn := types.NewNamed(types.NewTypeName(token.NoPos, g.pkg, "NProbeRec"+g.tag, nil), types.Typ[types.Int], nil)
 	rn.SetUnderlying(types.NewStruct([]*types.Var{f("r0", types.Typ[types.Uint8]), f("r1", fn), f("r2", types.NewMap(types.Typ[types.Int32], rn)), f("r3", types.Typ[types.Uint8])}, nil))
 	add("probe-chan-of-recursive", types.NewChan(types.SendRecv, rn))
+	// same, with an alias-typed func field and a nested zero-size member (thorough seed 1, type 141068)
+	rn2 := types.NewNamed(types.NewTypeName(token.NoPos, g.pkg, "NProbeRec2"+g.tag, nil), types.Typ[types.Int], nil)
+	afn := types.NewAlias(types.NewTypeName(token.NoPos, g.pkg, "AProbe3"+g.tag, nil), fn)
+	rn2.SetUnderlying(types.NewStruct([]*types.Var{f("r0", types.Typ[types.String]), f("r1", types.NewMap(types.Typ[types.Int32], rn2)),
+		f("r2", types.NewStruct([]*types.Var{f("f0", types.Typ[types.Int16]), f("f1", types.NewArray(c128, 0)), f("f2", fn), f("f3", types.NewSlice(types.Typ[types.Uint32]))}, nil)),
+		f("r3", afn)}, nil))
+	add("probe-chan-of-recursive-alias", types.NewAlias(types.NewTypeName(token.NoPos, g.pkg, "AProbe4"+g.tag, nil), types.NewChan(types.SendRecv, rn2)))
 	// wasm StdSizes nested tail padding
 	add("probe-nested-tailpad", types.NewStruct([]*types.Var{f("s", types.NewStruct([]*types.Var{f("a", types.Typ[types.Int32]), f("b", i8)}, nil)), f("c", i8)}, nil))
 	return
